@@ -106,11 +106,16 @@ def ffItemCtorOk : WVal → Bool
     (match v.entries.get? cs!"authid" with | some .null => true | some (.str _) => true | _ => false) &&
     (match v.entries.get? cs!"authrole" with | some (.str _) => true | _ => false)
 
-/-- items of `forward_for` as `parse` means to check them (the loop that `break`s): `authid` must be `str` -/
+/-- items of `forward_for` as the loop in `parse` checks them (once it is a `for/else`): `session: int`,
+`authrole: str`, and `authid: str` — or `None`, if the regenerated flag `ffAuthidNoneOk` says the source admits it
+(`ff["authid"] is not None and type(ff["authid"]) != str`) -/
 def ffItemParseOk : WVal → Bool
   | v => v.isDict &&
     (match v.entries.get? cs!"session" with | some (.int _) => true | _ => false) &&
-    (match v.entries.get? cs!"authid" with | some (.str _) => true | _ => false) &&
+    (match v.entries.get? cs!"authid" with
+     | some (.str _) => true
+     | some .null => Generated.WampCodes.ffAuthidNoneOk
+     | _ => false) &&
     (match v.entries.get? cs!"authrole" with | some (.str _) => true | _ => false)
 
 inductive OTy
